@@ -314,6 +314,9 @@ _add('C01', 'CLOSED WORLD (Props/C01W.lean): every floor and world function of t
 _add('C07', 'CLOSED WORLD (Props/C01W.lean): cancelled_never_runs_world, cancelled_stays_world, remaining_delay_world: the '
      'pause/cancel theorems hold for the events of every reachable world (machines that are shut down, restored and fail '
      'pause, resume and cancel their own events: families floorm, floorpf).')
+_add('C07', 'REPEATED CYCLES (Props/C07R.lean): cycles_exact — an event paused and resumed any number of times (well-timed pause/resume '
+     'pairs, the clock moving in between) ends up due at its original time plus the SUM of the pause lengths, whatever pause stamp '
+     'an earlier cycle left on it; cycle_exact, pause_stamps_now (a new pause overwrites a stale stamp).')
 _add('C09', 'CLOSED WORLD (Props/C11W.lean rmInv_reachable): the manager invariant holds in every reachable world of the floor model.')
 _add('C10', 'CLOSED WORLD (Props/C11W.lean): check_pending (a feasible waiting request always has a live check event due now), '
      'no_feasible_waiting_at_advance / no_feasible_waiting_when_clock_advances in every reachable world.')
